@@ -637,6 +637,12 @@ func TestVerif_C13(t *testing.T) {
 	}
 
 	if rp := vs.ReplayFile(); rp != "" {
+		var pc vPricingCase
+		if err := vs.LoadReplay(rp, &pc); err == nil && pc.Strategy != "" {
+			// a case of the real-pricing pass: the pass is a fixed list drawn from the seed; run it again
+			vRealPricingPass(res)
+			return
+		}
 		var r vOrderRun
 		if err := vs.LoadReplay(rp, &r); err != nil {
 			t.Fatalf("replay: %v", err)
@@ -656,6 +662,7 @@ func TestVerif_C13(t *testing.T) {
 	res.Extra("scenario_list", fmt.Sprintf("%d deterministic scenarios (complete list of DESIGN.md §5 C13)", len(scs)))
 	vs.Parallel(len(scs), runtime.NumCPU(), func(i int) { judge(scs[i]) })
 	vOrderFreeRuns(res, vs.Scale(300, 20000))
+	vRealPricingPass(res)
 }
 
 // vOrderFreeRuns: no stepping; the releaser and the event publisher race
